@@ -12,7 +12,7 @@ def pl(i, n, shape, stdin, stdout, stderr, term, nlines, fail_at=-1, detached=Fa
     return {"id": "pl%d" % i, "kind": "pipeline", "class": "pipeline-fail" if fail_at >= 0 else "pipeline",
             "n": n, "shape": shape, "tags": tags, "codes": codes, "elines": ["err-of-stage-%d" % k for k in range(n)],
             "stdin": stdin, "stdout": stdout, "stderr": stderr, "term": term, "nlines": nlines, "fail_at": fail_at,
-            "detached": detached}
+            "detached": detached, "stream": False, "head": False}
 
 
 def trees(seq):
@@ -78,6 +78,18 @@ def fam_pipelines(seed, big):
                 sc["tree"] = t
                 out.append(sc)
                 i += 1
+    # streaming stages (a generator and cat-like copiers that exert back-pressure), also with a last command that
+    # exits at once: everything upstream must then be released by SIGPIPE and the pipeline must finish
+    for n in (2, 3, 4):
+        for head in (False, True):
+            for term, stdin, stdout, stderr in (("popen", "inherit", "pipe", "inherit"), ("join", "inherit", "null", "inherit"),
+                                                ("capture", "inherit", "pipe", "capture"), ("stream_stdout", "inherit", "pipe", "inherit")):
+                sc = pl(i, n, "left", stdin, stdout, stderr, term, 0, rng=rng)
+                sc["stream"] = True
+                sc["head"] = head
+                sc["class"] = "pipeline-stream"
+                out.append(sc)
+                i += 1
     return out
 
 
@@ -99,6 +111,21 @@ def fam_pipeline_fail(seed, big):
                         out.append(pl(i, n, rng.choice(["left", "iter"]), stdin, stdout, stderr, term, rng.choice([0, 3, 20000]),
                                       fail_at=k, detached=det, rng=rng))
                         i += 1
+    # always: a late failure (k = n-1) behind commands that are still pushing a lot of data, every terminator
+    for n in (3, 4):
+        for term in TERMS:
+            for stdin, stdout, stderr in (("file", "pipe", "capture"), ("data", "pipe", "capture"), ("file", "pipe", "inherit"),
+                                          ("pipe", "file", "inherit"), ("file", "file", "inherit")):
+                if not valid(term, stdin, stdout, stderr):
+                    continue
+                out.append(pl(i, n, "left", stdin, stdout, stderr, term, 20000, fail_at=n - 1, detached=False, rng=rng))
+                i += 1
+                # the same with streaming stages (a generator and cat-like copiers exerting back-pressure)
+                for k in range(1, n):
+                    sc = pl(i, n, "left", stdin, stdout, stderr, term, 0, fail_at=k, detached=False, rng=rng)
+                    sc["stream"] = True
+                    out.append(sc)
+                    i += 1
     return out
 
 
@@ -125,7 +152,8 @@ def fam_handles(seed, big):
     # adapters that own further pipe ends the caller can neither read nor release
     for handle, scripts in (("pl_stream_stdin_outpipe", (["wo300000", "R", "x0"], ["R", "x0"], ["wo10", "x0"])),
                             ("stream_stdin_outpipe", (["wo300000", "R", "x0"], ["R", "wo300000", "x0"])),
-                            ("pl_stream_stdout_errpipe", (["we300000", "wo10", "x0"], ["wo300000", "we300000", "x0"]))):
+                            # (stdout first, so that the caller's read returns; then stderr nobody can read)
+                            ("pl_stream_stdout_errpipe", (["wo10", "we300000", "x0"], ["wo300000", "we300000", "x0"]))):
         for script in scripts:
             for wr in (0, 10):
                 out.append({"id": "h%d" % i, "kind": "handle", "class": "handle-extra-pipes", "handle": handle,
@@ -213,4 +241,18 @@ def fam_race(seed, big):
             out.append({"id": "race%d" % i, "kind": "race", "class": "race", "switch_at": at, "a": a, "b": b,
                         "detached": False})
             i += 1
+    return out
+
+
+def fam_builder_env(seed, big):
+    """C06 through the builder: what the child sees (argv, environment, cwd) for sequences of arg/env edits"""
+    rng = random.Random(seed * 79 + 6)
+    ops = [o for o in BUILDER_OPS if o[0] in ("arg", "args", "env", "env_extend", "env_remove", "env_clear", "cwd")]
+    ops += [["env_extend", [["K", "1"], ["K", "2"]]], ["env", "K", "3"], ["env_extend", [["HOME", "b"]]], ["env", "HOME", "c"]]
+    out = []
+    for j in range(400 if big else 120):
+        n = rng.randint(1, 7)
+        out.append({"id": "be%d" % j, "kind": "builder", "class": "builder-env", "is_shell": False, "shell": "",
+                    "ops": [rng.choice(ops) for _ in range(n)], "term": rng.choice(["capture", "join"]),
+                    "orig_term": "capture", "detached": False})
     return out
